@@ -193,7 +193,11 @@ func (w *World) applyUnchecked(prev *World, b types.Block, bs consensus.V1BlockS
 	}
 	oldLeaves := prevCS.Elements.NumLeaves
 	var serr error
-	if p, st := try(func() { serr = w.Store.Apply(au, w.Opt.HasAtt) }); p != nil {
+	hasAtt := false
+	for _, t := range b.V2Transactions() {
+		hasAtt = hasAtt || len(t.Attestations) > 0
+	}
+	if p, st := try(func() { serr = w.Store.Apply(au, hasAtt) }); p != nil {
 		return problem("proof|update-panic", "folding the ApplyUpdate into a store with up-to-date proofs panicked: %v\n%s", p, st)
 	}
 	if serr != nil {
